@@ -237,7 +237,7 @@ impl Expr {
                 }
                 UnaryOperator::BitwiseNot => {
                     let value = unary.expr.run(constants)?;
-                    Ok(value.reverse_bits())
+                    Ok(!value)
                 }
                 UnaryOperator::LogicalNot => {
                     let value = unary.expr.run(constants)?;
